@@ -1,5 +1,6 @@
 (** C16 at the level of Starlark values: DiffDepth on sequences and mappings. *)
-From Dawn Require Import Diff.Model Diff.Spec Diff.Proofs_Basic Diff.Proofs_Record Diff.Proofs_Search Diff.Proofs_Seq.
+From Dawn Require Import Diff.Model Diff.Spec Diff.Proofs_Basic Diff.Proofs_Record Diff.Proofs_Search Diff.Proofs_Seq
+     Diff.Proofs_Rounds.
 From Coq Require Import Lia.
 Open Scope Z_scope.
 
@@ -124,6 +125,25 @@ Proof.
   apply bind_ok in D as (script & DS & _).
   eapply seq_edits_faithful_lemma; eauto.
   eapply not_exhausted; eauto.
+Qed.
+
+Lemma seq_edits_faithful_all_lemma rs d a b ca ea cb eb df :
+  sliceable a = Some (ca, ea) -> sliceable b = Some (cb, eb) ->
+  diff_depth rs (S d) a b = Ok (Some df) ->
+  exists script edits,
+    df = DSlice a b edits /\
+    Forall2 (rendered d ca cb) script edits /\
+    Forall edit_shape script /\
+    faithful value (veq_d depth1000) ea eb script.
+Proof.
+  intros SA SB D. simpl in D.
+  destruct (veq_d (S d) a b) as [[|]|]; try discriminate.
+  rewrite SA, SB in D.
+  apply bind_ok in D as (script & DS & D). apply bind_ok in D as (edits & RE & D).
+  inversion D; subst df. exists script, edits.
+  split; [reflexivity|]. split; [eapply render_ok; eauto|].
+  split; [eapply diff_slice_shape; eauto|].
+  eapply diff_slice_faithful_all; eauto.
 Qed.
 
 (** *** mappings *)
